@@ -446,6 +446,10 @@ func (e *Sim) actionFrom(w *World, r *rand.Rand, ns, name string, sh shape, edit
 				t = sh.tpl(mk + "-sel")
 				t.Spec.NodeSelector = map[string]string{"zone": "a"}
 			}
+			if r.Intn(8) == 0 { // eligibility-widening variant: tolerates the "dedicated" taint the others do not
+				t = sh.tpl(mk + "-tol")
+				t.Spec.Tolerations = append(t.Spec.Tolerations, corev1.Toleration{Key: "dedicated", Operator: corev1.TolerationOpExists, Effect: corev1.TaintEffectNoSchedule})
+			}
 			if p.EnvOrder > 0 && r.Float64() < p.EnvOrder {
 				// variants that differ only in the order of the env list (distinct templates)
 				env := []corev1.EnvVar{{Name: "LOG", Value: "info"}, {Name: "ARGS", Value: "$(LOG)"}}
